@@ -499,6 +499,15 @@ static void tp_check(tp_ep *ep, const char *call);
  * Create (or, with cfg->reuse_ctx, re-use) the endpoint and reset it.
  * Returns the value returned by br_ssl_{client,server}_reset.
  */
+/* a flag documented as "non-zero": any non-zero value, not only 1 */
+static int
+tp_truthy(int v)
+{
+	static const int t[4] = { 1, 2, -1, 0x100 };
+	static unsigned tick;
+	return v ? t[tick ++ & 3] : 0;
+}
+
 static int
 tp_ep_start(tp_ep *ep, const tp_cfg *cfg)
 {
@@ -616,7 +625,7 @@ tp_ep_start(tp_ep *ep, const tp_cfg *cfg)
 			ep->buf_len = cfg->buflen;
 			ep->buf = malloc(ep->buf_len ? ep->buf_len : 1);
 			br_ssl_engine_set_buffer(ep->eng, ep->buf, ep->buf_len,
-				cfg->layout == TP_LAYOUT_SPLIT1);
+				tp_truthy(cfg->layout == TP_LAYOUT_SPLIT1));
 		}
 	}
 	if (!reuse && cfg->impl_set) {
@@ -709,7 +718,7 @@ tp_ep_start(tp_ep *ep, const tp_cfg *cfg)
 	if (cfg->role == 0) {
 		const char *sni = cfg->sni == NULL ? "localhost" : (cfg->sni[0] ? cfg->sni : NULL);
 		br_ssl_client_set_min_clienthello_len(ep->cc, (uint16_t)cfg->min_ch_len);
-		r = br_ssl_client_reset(ep->cc, sni, cfg->resume);
+		r = br_ssl_client_reset(ep->cc, sni, tp_truthy(cfg->resume));
 	} else {
 		r = br_ssl_server_reset(ep->sc);
 	}
@@ -936,7 +945,7 @@ tp_act_read(tp_ep *ep, size_t k)
 static void
 tp_act_flush(tp_ep *ep, int force)
 {
-	br_ssl_engine_flush(ep->eng, force);
+	br_ssl_engine_flush(ep->eng, tp_truthy(force));
 	tp_calls ++;
 	tp_check(ep, "flush");
 }
